@@ -14,6 +14,7 @@ package main
 
 import (
 	"bytes"
+	"encoding/base64"
 	"crypto/sha256"
 	"encoding/binary"
 	"flag"
@@ -35,6 +36,23 @@ type caseIn struct {
 	Small   bool   `json:"small,omitempty"`
 	Chunked bool   `json:"chunked,omitempty"`
 	HKind   int    `json:"hkind,omitempty"`
+	// explicit pure witnesses (corpus): round / dec use TS, Att, IDB64, BodyB64; mpub uses
+	// BodyB64 as the input with MaxMsg, MaxBody and Intent (0 invalid, 1 valid, 2 unknown)
+	Explicit bool   `json:"explicit,omitempty"`
+	TS       int64  `json:"ts,omitempty"`
+	Att      int    `json:"att,omitempty"`
+	IDB64    string `json:"id_b64,omitempty"`
+	MaxMsg   int64  `json:"max_msg,omitempty"`
+	MaxBody  int64  `json:"max_body,omitempty"`
+	Intent   int    `json:"intent,omitempty"`
+}
+
+func unb64(s string) []byte {
+	b, err := base64.StdEncoding.DecodeString(s)
+	if err != nil {
+		lib.Fatalf("bad base64 in replay input: %v", err)
+	}
+	return b
 }
 
 var out *lib.Out
@@ -256,6 +274,9 @@ func pureRound(in caseIn, name string) {
 	id := genID(r)
 	n, sc := sizeClass(r, true)
 	body, st := genBody(r, n)
+	if in.Explicit {
+		ts, att, id, body, tsc, sc, st = in.TS, uint16(in.Att), unb64(in.IDB64), unb64(in.BodyB64), "explicit", "explicit", "explicit"
+	}
 	rec, err := nsqd.VerifBackendRecord(ts, att, id, body)
 	if err != nil {
 		lib.Fatalf("writeMessageToBackend: %v", err)
@@ -354,10 +375,22 @@ func pureStream(in caseIn, name string) {
 
 // genBatch builds an MPUB batch around the given limits.  intent: 0 invalid, 1 valid, 2 unknown.
 func genBatch(r *lib.Rand, maxMsg, maxBody int64) (input []byte, bodies [][]byte, intent int, cls string) {
+	input, bodies, intent, cls, _ = genBatchB(r, maxMsg, maxBody)
+	return
+}
+
+// genBatchB: maxBody < 0 lets the generator choose the body limit relative to the batch
+// (at, just below and above the count bound (maxBody-4)/5, or a large one).
+func genBatchB(r *lib.Rand, maxMsg, maxBody int64) (input []byte, bodies [][]byte, intent int, cls string, chosenMaxBody int64) {
 	count := 1 + r.Intn(5)
 	if r.Chance(10) {
 		count = 0
 	}
+	if maxBody < 0 {
+		c := int64(count)
+		maxBody = []int64{5*c + 4, 5*c + 3, 5*c + 8, 200, 200, 5242880, 5242880, int64(r.Intn(30))}[r.Intn(8)]
+	}
+	chosenMaxBody = maxBody
 	cls = "valid"
 	intent = 1
 	for i := 0; i < count; i++ {
@@ -441,10 +474,23 @@ var mpubTopic *nsqd.Topic
 func pureMpub(in caseIn, name string) {
 	r := lib.NewRand(in.Seed)
 	maxMsgs := []int64{1, 5, 16, 64, 1048576}
-	maxBodies := []int64{0, 4, 8, 9, 13, 14, 19, 50, 200, 5242880}
 	maxMsg := maxMsgs[r.Intn(len(maxMsgs))]
-	maxBody := maxBodies[r.Intn(len(maxBodies))]
-	input, want, intent, cls := genBatch(r, maxMsg, maxBody)
+	input, want, intent, cls, maxBody := genBatchB(r, maxMsg, -1)
+	if in.Explicit {
+		input, maxMsg, maxBody, intent, cls = unb64(in.BodyB64), in.MaxMsg, in.MaxBody, in.Intent, "explicit"
+		want = nil
+		if intent == 1 { // the bodies the explicit input spells out
+			rd := input[4:]
+			for len(rd) >= 4 {
+				k := int(binary.BigEndian.Uint32(rd[:4]))
+				if k < 0 || 4+k > len(rd) {
+					break
+				}
+				want = append(want, rd[4:4+k])
+				rd = rd[4+k:]
+			}
+		}
+	}
 	bodies, ids, code, unread := nsqd.VerifReadMPUB(mpubTopic, input, maxMsg, maxBody)
 	cn := uint64(9)
 	switch code {
@@ -484,7 +530,7 @@ func digestKey(b []byte) []byte {
 // failures already recorded decide the run.
 var liveFailures = 0
 
-const maxLiveFailures = 3
+const maxLiveFailures = 2
 
 func run(in caseIn, name string) {
 	if liveFailures >= maxLiveFailures && (in.Kind == "http" || in.Kind == "live" || in.Kind == "livebig") {
